@@ -59,15 +59,23 @@ fn filter_file(content: &[u8]) -> String {
 }
 
 fn compare(bash: &Obs, brush: &Obs) -> Option<String> {
-    compare_opt(bash, brush, false)
+    compare_opt(bash, brush, false, false)
 }
 
-fn compare_opt(bash: &Obs, brush: &Obs, filter_files: bool) -> Option<String> {
+fn sorted_lines(s: &str) -> Vec<&str> {
+    let mut v: Vec<&str> = s.lines().collect();
+    v.sort_unstable();
+    v
+}
+
+/// `concurrent`: the script has a pipeline, whose stages write at the same time; a file (or the
+/// stdout) written by more than one of them is compared as a multiset of lines
+fn compare_opt(bash: &Obs, brush: &Obs, filter_files: bool, concurrent: bool) -> Option<String> {
     if brush.panicked() {
         return Some(format!("brush crashed: {}", brush.err_lossy()));
     }
     let (so_a, so_b) = if filter_files { (filter_file(&bash.stdout), filter_file(&brush.stdout)) } else { (bash.out_lossy(), brush.out_lossy()) };
-    if so_a != so_b {
+    if so_a != so_b && !(concurrent && sorted_lines(&so_a) == sorted_lines(&so_b)) {
         let a = so_a;
         let b = so_b;
         let la: Vec<&str> = a.lines().collect();
@@ -104,7 +112,7 @@ fn compare_opt(bash: &Obs, brush: &Obs, filter_files: bool) -> Option<String> {
                     } else {
                         (String::from_utf8_lossy(v).into_owned(), String::from_utf8_lossy(w).into_owned())
                     };
-                    if a != b {
+                    if a != b && !(concurrent && sorted_lines(&a) == sorted_lines(&b)) {
                         let la: Vec<&str> = a.lines().collect();
                         let lb: Vec<&str> = b.lines().collect();
                         let n = la.iter().zip(lb.iter()).take_while(|(x, y)| x == y).count();
@@ -138,7 +146,7 @@ fn judge_opt(spec: &CaseSpec, filter_files: bool) -> (Result<(), String>, Option
     if brush.status == Status::Timeout {
         return (Ok(()), Some(Verdict::inconclusive("brush timed out")), bash, brush);
     }
-    match compare_opt(&bash, &brush, filter_files) {
+    match compare_opt(&bash, &brush, filter_files, spec.script.contains(" | ")) {
         Some(d) => (Err(d), None, bash, brush),
         None => (Ok(()), None, bash, brush),
     }
